@@ -438,6 +438,15 @@ static void interleave(source *s, const elem *seq, long L, int open, vf_rng *r, 
 			if (!src_clone(s, &c)) { vf_count("clone:unsupported", 1); continue; }
 			if (vf_logging) vf_log("  p=%ld clone", p);
 			check_clone(&c, seq, L, p, open);
+			/* reset on the clone replays what reset on the original replays (a string iterator clone holds the rest of the text only) */
+			if (s->kind != KStr && !open && vf_chance(r, 1, 2)) {
+				int cr = src_reset(&c);
+				if (cr >= 0) {
+					if (vf_logging) vf_log("  clone reset -> %d", cr);
+					check_clone(&c, seq, L, 0, open);
+					vf_count("monitor:clone-reset-replays", 1);
+				}
+			}
 			src_drop(&c);
 			vf_count("monitor:clones-walked", 1);
 			/* the original is where it was */
